@@ -18,11 +18,13 @@ RULE = (
     "in the GP searcher state, rung entries, pending bracket slots before == after). (tuner) real Tuner over the scripted back-end with "
     "non-zero exit codes at any line and trials stopped from outside (stop file written between polls), max_failures 0..5: exactly one "
     "on_trial_error per failed / externally stopped run (life-cycle grammar), more than max_failures failures make run() raise an error "
-    "naming a trial that failed. Non-trivial = >= 1 failure and >= 3 further events involving other trials; distinct = distinct choice tape."
+    "naming a trial that failed. (fault-enumeration) for each of the 10 model-free families, 2 deterministic schedules, 2 seeds, 2 worker counts: "
+    "every set of <= 2 (thorough <= 3) failure placements on the grid (trial 0..3 / 0..4) x (about to deliver its j-th report, j = 0..3 / 0..4, "
+    "counted over the trial's whole life, so placements after a resume are included), same oracle. Non-trivial = >= 1 failure and >= 3 further events involving other trials; distinct = distinct choice tape."
 )
 ASSUMPTIONS = [
     "decisions for the other trials after a failure are also re-checked by the C03 / C04 / C05 reference models in those checks' own generators",
-    "fault placement is generated, not exhaustively enumerated, beyond the exhaustive small systems of C05",
+    "fault enumeration is complete for the stated small scope only (<= 2 / <= 3 failures on a 4x4 / 5x5 grid of (trial, report index) in two deterministic schedules per scheduler family); everything larger is generated",
 ]
 
 GP_OPTS = {"num_init_random": 2, "opt_nstarts": 1, "opt_maxiter": 3, "num_init_candidates": 6, "debug_log": False, "opt_skip_init_length": 50}
@@ -81,14 +83,18 @@ def build(t, fam, max_t, use_mra, n_workers):
     return spec, cs, use_mra
 
 
-def run_protocol(t, fam):
+def run_protocol(t, fam, controller=None, fixed=None):
+    """``controller(driver) -> (action, trial_id)`` replaces the tape's choice of the next step (fault enumeration);
+    ``fixed`` then carries max_t, n_workers, seed, and ``t`` is a tape that only returns defaults."""
     from syne_tune.optimizer.schedulers.searchers.utils.hp_ranges_factory import make_hyperparameter_ranges
 
-    max_t = t.int(2, 6)
-    n_workers = t.int(1, 4)
+    max_t = fixed["max_t"] if fixed else t.int(2, 6)
+    n_workers = fixed["n_workers"] if fixed else t.int(1, 4)
     use_mra = fam in ("hb-promotion", "hb-pasha", "sync-hb", "dehb", "hb-bo-promotion") and t.bool()
     spec, cs, use_mra = build(t, fam, max_t, use_mra, n_workers)
     fam = spec.family
+    if fixed and "random_seed" in spec.kwargs:
+        spec.kwargs["random_seed"] = fixed["seed"]
     sched = spec.build()
     tk = dp.make_time_keeper()
     inner = getattr(sched, "scheduler", sched)
@@ -98,6 +104,8 @@ def run_protocol(t, fam):
     curve = {}
 
     def result_fn(tid, config, level):
+        if fixed:
+            return {"loss": ((tid * 7 + level * 3 + fixed["seed"] * 5) % 11 + 0.5 * ((tid + level) % 2)) / 11.0}
         return {"loss": curve.setdefault((tid, level), t.float(0.0, 1.0))}
 
     def cap(config):
@@ -105,8 +113,8 @@ def run_protocol(t, fam):
 
     gp = fam in GP_FAMILIES
     d = dp.ProtocolDriver(
-        sched, t, result_fn, level_cap_fn=cap, n_workers=n_workers, max_trials=t.int(2, 8), max_steps=25 if gp else 60,
-        checkpointing=not t.chance(1, 3), allow_fail=True, fail_weight=2, time_keeper=tk,
+        sched, t, result_fn, level_cap_fn=cap, n_workers=n_workers, max_trials=fixed["max_trials"] if fixed else t.int(2, 8), max_steps=25 if gp else 60,
+        checkpointing=fixed["checkpointing"] if fixed else not t.chance(1, 3), allow_fail=True, fail_weight=2, time_keeper=tk,
     )
     labels = {fam}
     failed_cfg = {}
@@ -129,7 +137,14 @@ def run_protocol(t, fam):
 
         sched.on_trial_error = probing
         try:
-            ev = d.step()
+            if controller is not None:
+                if not d.enabled() or d.steps >= d.max_steps:
+                    ev = None
+                else:
+                    act, tid_forced = controller(d)
+                    ev = d.step(force=act, force_tid=tid_forced)
+            else:
+                ev = d.step()
         except Violation as v:
             if v.kind == "resume-of-non-paused-trial" and "failed" in str(v.detail):
                 kind = f"failed-trial-resumed:{fam}"
@@ -202,6 +217,65 @@ def case_protocol_gp(t):
     return run_protocol(t, t.choice(GP_FAMILIES))
 
 
+ENUM_FAMILIES = FAMILIES
+
+
+def _fault_grid(tier):
+    import itertools
+
+    trials, slots, kmax = (4, 4, 2) if tier == "quick" else (5, 5, 3)
+    grid = [(a, b) for a in range(trials) for b in range(slots)]
+    for k in range(kmax + 1):
+        for plan in itertools.combinations(grid, k):
+            yield trials, plan
+
+
+def enum_faults(tier):
+    """log = [family, policy, seed, n_workers, checkpointing, max_trials, k, (trial, slot) * k]: every set of <= 2 (thorough: <= 3)
+    fault placements (trial i fails when it is about to deliver its j-th report, counted over its whole life, j = 0 .. ) in a
+    deterministic schedule."""
+    for fi in range(len(ENUM_FAMILIES)):
+        for policy in (0, 1):
+            for seed in (0, 1):
+                for nw in (2, 3):
+                    for trials, plan in _fault_grid(tier):
+                        yield [fi, policy, seed, nw, (seed + policy) % 2, trials, len(plan)] + [x for p in plan for x in p]
+
+
+def case_enum(t):
+    from harness.tape import Tape
+
+    fam = ENUM_FAMILIES[t.int(0, len(ENUM_FAMILIES) - 1)]
+    policy = t.int(0, 1)
+    seed = t.int(0, 1)
+    nw = t.int(2, 3)
+    ckpt = t.int(0, 1) == 1
+    trials = t.int(4, 5)
+    k = t.int(0, 3)
+    plan = {(t.int(0, 4), t.int(0, 4)) for _ in range(k)}
+    picked = {}
+    state = {"turn": 0}
+
+    def controller(d):
+        acts = d.enabled()
+        state["turn"] += 1
+        want_report = "report" in acts and ("suggest" not in acts or (policy == 1 and state["turn"] % 2 == 0))
+        if not want_report:
+            return "suggest", None
+        ids = sorted(d.running)
+        tid = ids[0] if policy == 0 else ids[-1]
+        j = picked.get(tid, 0)
+        picked[tid] = j + 1
+        if (tid, j) in plan:
+            return "fail", tid
+        return "report", tid
+
+    fixed = {"max_t": 4, "n_workers": nw, "seed": seed, "max_trials": trials, "checkpointing": ckpt}
+    res = run_protocol(Tape(log=[]), fam, controller=controller, fixed=fixed)
+    res.labels = sorted(set(res.labels) | {f"faults-{len(plan)}"})
+    return res
+
+
 def case_tuner(t):
     from syne_tune import StoppingCriterion
     from syne_tune.config_space import uniform
@@ -261,5 +335,6 @@ def case_tuner(t):
 SUBCHECKS = {
     "protocol": {"fn": case_protocol, "quick": 14000, "thorough": 300000, "required": ["failure", "failure-after-resume", "failure-before-first-report", "failure-in-synchronous-bracket"] + FAMILIES},
     "protocol-gp": {"fn": case_protocol_gp, "quick": 480, "thorough": 8000, "min_per_shard": 10, "required": ["failure", "gp-pending-at-failure"]},
+    "fault-enumeration": {"fn": case_enum, "enumerate": enum_faults, "quick": 1, "thorough": 1},
     "tuner": {"fn": case_tuner, "quick": 6000, "thorough": 120000, "required": ["failure", "stopped-externally", "limit-exceeded", "on_trial_error"]},
 }
